@@ -124,6 +124,7 @@ package virtual
 // gave back (Unlink) on leaf l. Leaves are separate objects: linking or
 // unlinking one does not modify directory contents.
 //@ ghost map leaflinks(ref) int zero
+//@ ghost map listdelta(ref) int zero
 //@ stub (pkg/filesystem/virtual.LinkableLeaf).Unlink
 //@   modifies leaflinks[arg0]
 //@   ensures leaflinks(arg0) == old(leaflinks(arg0)) - 1
@@ -238,6 +239,17 @@ package virtual
 //@   loop 0 invariant lNew == &leNew.lock && lNew.Type == old(lProvided.Type) && lNew.Owner == old(lProvided.Owner)
 //@   loop 1 invariant leTrailing != nil ==> leTrailing.lock.Type != lNew.Type && leTrailing.lock.Owner == lNew.Owner
 //@   loop 1 invariant lNew == &leNew.lock && lNew.Type == old(lProvided.Type) && lNew.Owner == old(lProvided.Owner)
+//@   at call insertBefore#1 ghostset listdelta[nil] = listdelta(nil) + 1
+//@   at call insertBefore#2 ghostset listdelta[nil] = listdelta(nil) + 1
+//@   at call remove#1 ghostset listdelta[nil] = listdelta(nil) - 1
+//@   at call remove#2 ghostset listdelta[nil] = listdelta(nil) - 1
+//@   at call remove#3 ghostset listdelta[nil] = listdelta(nil) - 1
+//@   at call remove#1 assume delta > -MaxInt64 -- a lock table does not hold 2^63 entries
+//@   at call remove#2 assume delta > -MaxInt64 -- a lock table does not hold 2^63 entries
+//@   at call remove#3 assume delta > -MaxInt64 -- a lock table does not hold 2^63 entries
+//@   loop 1 invariant reported-so-far-is-what-happened-to-the-list: delta == listdelta(nil) && delta <= 1 && (lNew.Type == ByteRangeLockTypeUnlocked ==> delta <= 0)
+//@   ensures the-reported-change-is-entries-added-minus-entries-removed: r0 == listdelta(nil)
+//@   ensures unlocking-never-adds-the-unlocked-range-itself: old(lProvided.Type) == ByteRangeLockTypeUnlocked ==> r0 <= 1
 //@   at call insertBefore#2 assert remainder-keeps-the-type-of-the-lock-it-was-cut-from:
 //@             leTrailing.lock.Type != lNew.Type && leTrailing.lock.Owner == lNew.Owner
 //@   at call insertBefore#1 assert inserted-lock-is-the-requested-one:
